@@ -1,6 +1,6 @@
 #!/bin/bash
 # usage: tools/benign.sh [dirs...] — every check must stay silent on every behaviour-preserving patch of /verif/benign
-dirs="$@"; [ -z "$dirs" ] && dirs=$(ls -d /verif/benign/*-p*)
+dirs="$@"; [ -z "$dirs" ] && dirs=$(ls -d /verif/benign/*p[0-9]* | grep -v /limits)
 run() {
   d=$1
   out=$(/verif/tools/mut.sh $d/patch.diff all 2>&1)
